@@ -57,7 +57,9 @@ SLOTS = [
      # a second $PROBLEM with its own table
      '$ESTIMATION METHOD=1 INTERACTION\n$TABLE ID TIME DV NOAPPEND FILE=sdtab1\n'
      f'$PROBLEM second\n$INPUT ID TIME AMT WGT APGR DV FA1 FA2\n$DATA {DATA} IGNORE=@ REWIND\n$THETA 1\n'
-     '$OMEGA 1\n$SIGMA 1\n$ESTIMATION METHOD=0 MAXEVAL=0\n$TABLE ID NOAPPEND FILE=mytab1 ; keep me\n'],
+     '$OMEGA 1\n$SIGMA 1\n$ESTIMATION METHOD=0 MAXEVAL=0\n$TABLE ID NOAPPEND FILE=mytab1 ; keep me\n',
+     # a table written over two lines, the first one ending in a comment
+     '$ESTIMATION METHOD=1 INTERACTION\n$TABLE ID TIME DV ; the standard table\nNOPRINT ONEHEADER NOAPPEND FILE=sdtab1\n'],
 ]
 NS = [len(s) for s in SLOTS]
 EDIT = int(os.environ.get('VH_EDIT', '0'))
@@ -68,7 +70,9 @@ VARY = {'head': (0, 1, 2, 9), 'params': (4, 5, 6, 7, 8), 'all': tuple(range(10))
 #  0: none (regeneration of the unmodified model)   1: initial estimate of the first theta   2: description
 #  3: initial estimate of the sigma                  4: a statement of $PK
 #  5: the model name (run2: the table files of this problem are renamed, nothing else)
-CHANGED = {0: None, 1: 6, 2: 1, 3: 8, 4: 4, 5: 9}
+#  6: the estimation method ($ESTIMATION; the $TABLE records carry the predictions / residuals of the step and may be
+#     re-written with it, but their comments must survive exactly)
+CHANGED = {0: None, 1: 6, 2: 1, 3: 8, 4: 4, 5: 9, 6: 9}
 
 Model.parse_model_from_string(''.join(s[0] for s in SLOTS))       # warm up parsers / dataset reader
 
@@ -102,6 +106,8 @@ def _body(idx, edit):
         m2 = pm.set_initial_estimates(m, {m.parameters.names[-1]: 0.25})
     elif edit == 5:
         m2 = m.replace(name='run2')
+    elif edit == 6:
+        m2 = pm.set_estimation_step(m, 'FO', idx=0)
     else:
         s1 = m.statements.find_assignment('S1')
         m2 = m.replace(statements=m.statements.reassign(s1.symbol, s1.expression * 1000))
@@ -124,8 +130,24 @@ def _body(idx, edit):
     remainder += out[pos:]
     # what is left is the re-written record(s) of the changed slot: the same record names as before, nothing else
     names = lambda t: [ln.split()[0][:4].upper() for ln in t.splitlines() if ln.startswith('$')]  # noqa: E731
-    if names(remainder) != names(chunks[changed]):
+    if edit != 6 and names(remainder) != names(chunks[changed]):
         raise AssertionError(f'edit {edit}: records {names(remainder)} written for the edited slot {names(chunks[changed])}: {out!r}')
+    # every comment of the re-written record(s) is preserved exactly (it still ends its line).  Not demanded: the
+    # title line of $PROBLEM (NM-TRAN: a comment there is part of the title, i.e. of the edited description) and, for
+    # the estimation edit, the $ESTIMATION / $COVARIANCE records themselves (they express the edited step and are
+    # regenerated); the $TABLE records are only re-written, so their comments must survive.
+    rec = ''
+    for ln in chunks[changed].splitlines():
+        if ln.startswith('$'):
+            rec = ln.split()[0][:4].upper()
+        if rec == '$PRO' and ln.startswith('$'):
+            continue
+        if edit == 6 and rec != '$TAB':
+            continue
+        if ';' in ln and not ln.lstrip().startswith('"'):
+            com = ln[ln.index(';'):]
+            if (com + '\n') not in remainder + '\n':
+                raise AssertionError(f'edit {edit}: comment {com!r} of the edited record not preserved exactly in {remainder!r}')
     return True
 
 
